@@ -546,7 +546,18 @@ def _cache_findings(mod, rel, fx=None):
             kinds = [returns_mutable(getattr(mod, "repo", None), mod, r.value) for r in fev.returns if r.value is not None]
         except Exception:
             kinds = [None]
+        frozen = False
         if any(k is True for k in kinds):
+            # the function hands out an array it has made read-only:  x.setflags(write=False) / x.flags.writeable = False before return x
+            rnames = {r.value.id for r in ast.walk(fn) if isinstance(r, ast.Return) and isinstance(r.value, ast.Name)}
+            for n in ast.walk(fn):
+                if isinstance(n, ast.Call) and isinstance(n.func, ast.Attribute) and n.func.attr == "setflags" and isinstance(n.func.value, ast.Name) \
+                        and n.func.value.id in rnames and any(k.arg == "write" and isinstance(k.value, ast.Constant) and k.value.value is False for k in n.keywords):
+                    frozen = True
+                if isinstance(n, ast.Assign) and len(n.targets) == 1 and ast.unparse(n.targets[0]).endswith(".flags.writeable") \
+                        and isinstance(n.value, ast.Constant) and n.value.value is False and ast.unparse(n.targets[0]).split(".")[0] in rnames:
+                    frozen = True
+        if any(k is True for k in kinds) and not frozen:
             why.append("the cached value is a mutable array/list handed to every caller: one caller's in-place change alters all later results")
         elif any(k is None for k in kinds) and not why:
             raise AnalysisErrorProxy(f"{rel}:{qual}: cannot decide whether the value cached by @{txt} is immutable")
